@@ -235,6 +235,10 @@ class Translator:
             return Lang(la.false(), la.raises) if neg else la
         if not (isinstance(node, ast.Name) and node.id in env):
             node = self._inline_locals(node, env)
+        if isinstance(node, ast.Constant) and \
+                isinstance(node.value, (bool, int, type(None))):
+            # an option left at its default (see validator())
+            return Lang(self.ALL if node.value else self.NONE, self.NONE)
         if isinstance(node, ast.Call) and isinstance(node.func, ast.Lambda) \
                 and not node.keywords and \
                 len(node.args) == len(node.func.args.args) and \
@@ -418,12 +422,47 @@ class Translator:
         var = fi.params()[0]
         self.len_atoms = []
         st = {'alive': self.ALL, 'wrong': [], 'accepted_early': self.NONE}
-        self.block(fi.node.body, fi, var, {}, st, in_try=False,
-                   depth=_depth)
+        self.block(fi.node.body, fi, var, self._option_defaults(fi), st,
+                   in_try=False, depth=_depth)
         res = {'accept': (st['alive'] | st['accepted_early']).minimize(),
                'wrong': st['wrong'], 'len_atoms': list(self.len_atoms)}
         self.cache[fi.qualname] = res
         return res
+
+    def _option_defaults(self, fi):
+        """Further parameters of a validator are options; the language that
+        is decided is the one with every option at its (constant) default,
+        which is sound for the property as long as no call in the package
+        passes one - the message constructors must get the plain grammar."""
+        a = fi.node.args
+        extra = a.args[1:] + a.kwonlyargs
+        if not extra and not a.vararg and not a.kwarg:
+            return {}
+        defaults = dict(zip([x.arg for x in a.args][::-1],
+                            a.defaults[::-1]))
+        defaults.update({x.arg: d for x, d in zip(a.kwonlyargs,
+                                                  a.kw_defaults) if d})
+        env = {}
+        for x in extra:
+            d = defaults.get(x.arg)
+            if not isinstance(d, ast.Constant):
+                raise AnalysisError('validator %s takes a further parameter '
+                                    '%r without a constant default'
+                                    % (fi.qualname, x.arg))
+            env[x.arg] = d
+        for f in self.prog.all_funcs.values():
+            for n in ast.walk(f.node):
+                if isinstance(n, ast.Call) and (
+                        (isinstance(n.func, ast.Name) and
+                         n.func.id == fi.name) or
+                        (isinstance(n.func, ast.Attribute) and
+                         n.func.attr == fi.name)) and \
+                        (len(n.args) != 1 or n.keywords):
+                    raise AnalysisError(
+                        '%s: %s is called with an option set; the language '
+                        'with options is outside the fragment'
+                        % (f.qualname, fi.name))
+        return env
 
     def exc_name(self, node):
         if isinstance(node, ast.Raise) and node.exc is not None:
